@@ -190,6 +190,13 @@ class SDateTime:
             return from_concrete(o) - self
         return NotImplemented
 
+    def strftime(self, fmt):
+        from . import interp as _interp
+        return strftime_model(None, self, fmt)
+
+    def isoformat(self, sep="T", timespec="auto"):
+        return isoformat_model(None, self, sep, timespec)
+
     def replace(self, **kw):
         vals = {f: kw.get(f, getattr(self, f)) for f in self.FIELDS}
         new = SDateTime(**vals)
@@ -427,3 +434,126 @@ def exact_calendar(formulas):
                                (_LEAP, z3.substitute(leap_body, (y, z3.Var(0, z3.IntSort())))))
         out.append(g)
     return out
+
+
+# ----------------------------------------------------------------------------
+# text forms of datetimes (strftime / strptime / isoformat) on chunked strings
+def _fmt_pieces(fmt):
+    i, out = 0, []
+    while i < len(fmt):
+        if fmt[i] == "%" and i + 1 < len(fmt):
+            out.append(("%", fmt[i + 1]))
+            i += 2
+        else:
+            out.append(("lit", fmt[i]))
+            i += 1
+    return out
+
+
+def strftime_model(interp, d, fmt):
+    """datetime.strftime for the directives Y m d H M S f j y.
+    %Y is NOT zero padded by this platform's C library for years below 1000 (checked by the bounded tier)."""
+    from .strsym import SStr, Num, str_of_int
+    from . import sym as _sym
+    parts = []
+    for kind, ch in _fmt_pieces(fmt):
+        if kind == "lit":
+            parts.append(ch)
+            continue
+        if ch == "Y":
+            y = d.year
+            if isinstance(y, int):
+                parts.append(str(y))
+            else:
+                # number of digits of the year: a case split (1..4 digits)
+                if y >= 1000:
+                    parts.append(Num(y, 4))
+                elif y >= 100:
+                    parts.append(Num(y, 3))
+                elif y >= 10:
+                    parts.append(Num(y, 2))
+                else:
+                    parts.append(Num(y, 1))
+        elif ch in "mdHMS":
+            v = {"m": d.month, "d": d.day, "H": d.hour, "M": d.minute, "S": d.second}[ch]
+            parts.append("%02d" % v if isinstance(v, int) else Num(v, 2))
+        elif ch == "f":
+            v = d.microsecond
+            parts.append("%06d" % v if isinstance(v, int) else Num(v, 6))
+        elif ch == "%":
+            parts.append("%")
+        else:
+            raise OutsideSubset("strftime directive %%%s" % ch)
+    return SStr(parts)
+
+
+def isoformat_model(interp, d, sep="T", timespec="auto"):
+    from .strsym import SStr, Num
+    if timespec != "microseconds":
+        raise OutsideSubset("isoformat(timespec=%r) of a symbolic datetime" % timespec)
+
+    def n(v, w):
+        return ("%0*d" % (w, v)) if isinstance(v, int) else Num(v, w)
+    return SStr([n(d.year, 4), "-", n(d.month, 2), "-", n(d.day, 2), sep, n(d.hour, 2), ":", n(d.minute, 2), ":", n(d.second, 2),
+                 ".", n(d.microsecond, 6)])
+
+
+def strptime_model(interp, s, fmt):
+    """datetime.strptime for the directives Y m d H M S f and literals, read off the fixed-width structure of the
+    chunked string: %Y takes exactly four digits, the two-digit fields must lie in their ranges, %f takes 1..6 digits;
+    anything else is the ValueError CPython raises (its regular expressions are \\d\\d\\d\\d, 1[0-2]|0[1-9]|[1-9], ...)."""
+    from .strsym import SStr, int_of
+    from .interp import PyRaise
+    if not isinstance(s, SStr):
+        return interp.native(_dt.datetime.strptime, s, fmt)
+    ctx = interp.ctx
+    shape = s.concrete_shape("0")
+    digit_at = [False] * len(shape)
+    p = 0
+    for a, b, c in s.positions():
+        for q in range(a, b):
+            digit_at[q] = (not isinstance(c, str)) or shape[q].isdigit()
+    pos = 0
+    vals = {}
+
+    def bad():
+        raise PyRaise(ValueError("time data does not match format %r" % fmt))
+
+    def take(width_min, width_max):
+        nonlocal pos
+        w = 0
+        while w < width_max and pos + w < len(shape) and digit_at[pos + w]:
+            w += 1
+        if w < width_min:
+            bad()
+        part = s.slice(pos, pos + w)
+        pos += w
+        return int_of(interp, part), w
+    ranges = {"m": (1, 12, "month"), "d": (1, 31, "day"), "H": (0, 23, "hour"), "M": (0, 59, "minute"), "S": (0, 61, "second")}
+    for kind, ch in _fmt_pieces(fmt):
+        if kind == "lit":
+            lit = s.slice(pos, pos + 1)
+            if pos >= len(shape) or not (len(lit.chunks) == 1 and lit.chunks[0] == ch):
+                bad()
+            pos += 1
+        elif ch == "Y":
+            v, w = take(4, 4)
+            vals["year"] = v
+        elif ch in ranges:
+            lo, hi, name = ranges[ch]
+            v, w = take(1, 2)
+            ok = (v >= lo) & (v <= hi) if isinstance(v, Sym) else (lo <= v <= hi)
+            if not (ctx.branch(sym.truth(ok)) if isinstance(ok, Sym) else ok):
+                bad()
+            vals[name] = v
+        elif ch == "f":
+            v, w = take(1, 6)
+            vals["microsecond"] = v * (10 ** (6 - w))
+        else:
+            raise OutsideSubset("strptime directive %%%s" % ch)
+    if pos != len(shape):
+        bad()          # unconverted data remains
+    vals.setdefault("year", 1900)
+    vals.setdefault("month", 1)
+    vals.setdefault("day", 1)
+    return datetime_model(interp, **vals)
